@@ -17,6 +17,7 @@ import Verif.Lemmas.MptStoreTrie
 import Verif.Lemmas.MptRound
 import Verif.Lemmas.MergeRound
 import Verif.Lemmas.OrderChanges
+import Verif.Lemmas.TrieRun
 import Verif.Lemmas.RefKeyInj
 namespace Verif.Props.C04
 open Verif.Mpt Verif.MptStore Verif.MptStore.Collector
@@ -219,6 +220,49 @@ theorem C04_complete_one_merge (H : Bytes → Bytes) (P0 : PStore) (t0 t1 t2 : N
   apply C04_complete_partial H P0 t0 t2 b0 _ hfresh h0 hd hc
   intro a b ha hb hk
   rw [hU a b (hin a ha) (hin b hb) hk]
+
+/-- **Saved state is complete — any round of a block trie**: own operations and merges of transactions in any number
+    and order, transactions themselves containing nested merged transactions (`TrieRun`; each child is opened on the
+    current tree with a fresh collector and its pending changes are replayed in the order `orderChanges` computes, which
+    must not be stuck).  No discipline hypothesis: it is proved for every such run (`trieRun_discipline`).  Remaining:
+    canonical resolvable start tree, key injectivity on the references `U` of the run. -/
+theorem C04_complete_run (H : Bytes → Bytes) (U : Ref → Prop) (P0 : PStore) (t0 t : Node) (b0 : Trie) (v : Nat)
+    (es : List Event)
+    (hfresh : b0.cc.changes = [] ∧ b0.cc.deletes = [])
+    (h0 : Resolves H (Map.get P0.nodes) t0 []) (hw : WF t0) (hUt : ∀ r ∈ refs t0 [], U r)
+    (hrun : TrieRun H U v t0 es t) (hU : KeyInjOn H U) :
+    Resolves H (Map.get (P0.applyAll (saveStream H (b0.applyEvents H es))).nodes) t [] := by
+  obtain ⟨hd, hc, _, hE, hUt'⟩ := trieRun_discipline H U hU hrun hw hUt (fun x => x ∈ (refs t0 []).map (Ref.key H))
+    (fun r hr => List.mem_map.mpr ⟨r, hr, rfl⟩)
+    (by intro x hx; obtain ⟨r, hr, hk⟩ := List.mem_map.mp hx; exact ⟨r, hUt r hr, hk⟩)
+  apply C04_complete_partial H P0 t0 t b0 es hfresh h0 hd hc
+  intro a b ha hb hk
+  have hin : ∀ r, (r ∈ refs t0 [] ∨ r ∈ refs t [] ∨ r ∈ eventRefs es) → U r := by
+    intro r hr
+    rcases hr with hr | hr | hr
+    · exact hUt r hr
+    · exact hUt' r hr
+    · exact hE r hr
+  rw [hU a b (hin a ha) (hin b hb) hk]
+
+/-- non-vacuity of `C04_complete_run` (and `TrieRun`): the block trie merges one transaction that inserted a key -/
+example : ∃ es, TrieRun id (fun r => r = ⟨[], .leaf 1 [3] [65]⟩) 1 .empty es (.leaf 1 [3] [65]) ∧
+    Resolves id (Map.get (({} : PStore).applyAll (saveStream id ((Trie.open [] .empty 1).applyEvents id es))).nodes)
+      (.leaf 1 [3] [65]) [] := by
+  have hC : RoundEvents 1 .empty ((insertE 1 [65] .empty [] [3]).2 ++ []) (.leaf 1 [3] [65]) := by
+    apply RoundEvents.ins _ _ _ _ _ (by simp)
+    have h1 : (insertE 1 [65] .empty [] [3]).1 = .leaf 1 [3] [65] := by simp [insertE]
+    rw [h1]; exact RoundEvents.nil _
+  have hchild : TrieRun id (fun r => r = ⟨[], .leaf 1 [3] [65]⟩) 1 .empty
+      (((insertE 1 [65] .empty [] [3]).2 ++ []) ++ []) (.leaf 1 [3] [65]) :=
+    TrieRun.own _ _ _ _ _ hC (by intro r hr; simpa [insertE, eventRefs] using hr) (TrieRun.nil _)
+  have hrun := TrieRun.merge (H := id) (U := fun r => r = ⟨[], .leaf 1 [3] [65]⟩) (v := 1) .empty (.leaf 1 [3] [65])
+    (.leaf 1 [3] [65]) (Trie.open [] .empty 1) _ [] ⟨rfl, rfl⟩ hchild (by decide) (TrieRun.nil _)
+  refine ⟨_, hrun, ?_⟩
+  apply C04_complete_run id _ {} .empty _ (Trie.open [] .empty 1) 1 _ ⟨rfl, rfl⟩ (by intro r h; simp [refs] at h)
+    (Or.inl rfl) (by intro r h; simp [refs] at h) hrun
+  intro a b ha hb _
+  rw [ha, hb]
 
 /-- non-vacuity of `C04_complete_one_merge`: the block trie does nothing itself, one transaction inserts a key -/
 example : Resolves id (Map.get (({} : PStore).applyAll (saveStream id ((Trie.open [] .empty 1).applyEvents id
